@@ -39,6 +39,18 @@ func init() {
 	})
 }
 
+// alphaName spells n with letters only (identifiers of the filter language have no digits).
+func alphaName(n int) string {
+	s := ""
+	for {
+		s = string(rune('a'+n%26)) + s
+		n = n/26 - 1
+		if n < 0 {
+			return s
+		}
+	}
+}
+
 func runC18(c *core.Ctx, idx int) {
 	path := c.TempFile("c18")
 	s, err := openStamp(path)
@@ -123,6 +135,55 @@ func runC18(c *core.Ctx, idx int) {
 				}
 				if err == nil && parsed != nil {
 					_ = boltz.ValidateSymbolsArePublic(parsed, cells.Store)
+				}
+			}
+		}(p)
+	}
+	// empty-filter pagers: each goroutine parses the empty filter, pages its own query object and runs it; a reader with
+	// page size k must get exactly k ids (own paging, nobody else's)
+	for p := 0; p < 3; p++ {
+		rwg.Add(1)
+		go func(p int) {
+			defer rwg.Done()
+			for i := 0; !stop.Load(); i++ {
+				q, err := ast.Parse(cells.Store, "")
+				if err != nil || q == nil {
+					c.Violationf("C18 empty filter rejected", nil, "%v", err)
+					return
+				}
+				limit, skip := int64(1+(i+p)%3), int64((i+p)%2)
+				q.SetLimit(limit)
+				q.SetSkip(skip)
+				_ = s.db.View(func(tx *bbolt.Tx) error {
+					ids, n, err := cells.Store.QueryIdsC(tx, q)
+					c.Count("helper_calls", 1)
+					want := limit
+					if int64(stampCells)-skip < want {
+						want = int64(stampCells) - skip
+					}
+					if err != nil || int64(len(ids)) != want || n != int64(stampCells) || (len(ids) > 0 && ids[0] != cellId(int(skip))) {
+						c.Violationf("C18 paged empty-filter query returned another reader's page", map[string]any{"skip": skip, "limit": limit}, "skip %d limit %d: ids %q count %d err=%v", skip, limit, ids, n, err)
+					}
+					return nil
+				})
+			}
+		}(p)
+	}
+	// validation of map-element names never seen before (symbol resolution + public-symbol lookup on the shared store)
+	for p := 0; p < 2; p++ {
+		rwg.Add(1)
+		go func(p int) {
+			defer rwg.Done()
+			for i := 0; !stop.Load(); i++ {
+				name := "meta.k" + alphaName(i*2+p)
+				parsed, err := ast.Parse(cells.Store, name+` = "x" or `+name+`.sub != null`)
+				c.Count("concurrent_parses", 1)
+				if err != nil {
+					c.Violationf("C18 concurrent parse gave the wrong verdict", name, "fresh map element %q: %v", name, err)
+					continue
+				}
+				if verr := boltz.ValidateSymbolsArePublic(parsed, cells.Store); verr != nil {
+					c.Violationf("C18 public-symbol validation under concurrency", name, "element %q of the public map rejected: %v", name, verr)
 				}
 			}
 		}(p)
